@@ -34,6 +34,8 @@ import Proofs.FitCoherent
 import Proofs.FitValid
 import Proofs.FitPayload
 import Proofs.FitAround
+import Proofs.FitTail
+import Proofs.InsertAtValid
 import Proofs.JoinSuccess
 import Proofs.Placement
 import Props.C01
@@ -1652,5 +1654,606 @@ theorem findWrappingTypes_exact (S : Schema) (d : Dfa) (q : Nat) (target : TypeI
       (w = [] ∧ (d.matchType q target).isSome = true) ∨
       (∃ t c, w = c ++ [t] ∧ ((S.dfa t).matchType 0 target).isSome = true)) :=
   ⟨findWrappingTypes_complete S d q target hwf, fun w h => findWrappingTypes_spec S d q target w h⟩
+
+/-! ## The returned document: valid, content around the range kept, deletions exact (second and third sentence of C11)
+
+The theorems above are about the *emitted step*.  This section composes them into statements about the
+*document the operation returns*, with no hypothesis about the step: `Transform.replace(f, t, slice)` is
+`replace_step(doc, f, t, slice)` followed by `Transform.step` (= `Step.apply`, which raises when the result is a failure);
+`delete(f, t)` is `replace(f, t, Slice.empty)`; `insert` / `replace_with` hand `replace` a closed slice; `delete_range`,
+`replace_range`, `replace_range_with` plan one or several such calls on the same document (`deleteRangeStep`,
+`replaceRangeCalls`, `replaceRangeWithCalls`).
+
+* `Kept d d' f t req` — the C11 conclusion about content, for both step kinds in one predicate;
+* `op_valid_of` — C01's `apply_valid` and the monitor theorems in one statement;
+* `EmitOK` — valid payload + `StepWF` + "no text behind the gap", proved for every step emitted for a **deletion**
+  (`delete_emitOK`, both step kinds); for a **closed slice of valid leaf / text nodes** (`insertInline_emitOK_partial`) and
+  for **every `openValid` slice under `fitEndInv ≠ some false`** (`fit_emitOK_of_inv_partial`) it is proved for
+  `ReplaceStep` answers, and for `ReplaceAroundStep` answers up to `AroundPayload` (the payload *with the gap content in
+  place*; `StepWF` and "no text behind the gap" are proved for them too — Proofs/FitTail.lean);
+* `delete_valid`, `deleteRange_valid` (unconditional), `insertInline_valid_partial`, `replace_valid_of_inv_partial` and the
+  lifts through the plans of `replace_range` / `replace_range_with` (`replaceRange_valid_delete`,
+  `replaceRange_valid_inline_partial`, `replaceRange_valid_of_inv_partial`, `replaceRangeWith_valid_*_partial`);
+* `aroundPayload_of_norm`, `insertInline_valid_of_norm`, `replace_valid_of_inv_of_norm` — `AroundPayload` discharged by
+  `insertAt_openValid` (Proofs/InsertAtValid.lean) for documents in normal form and `textStableB` schemas; what is left
+  for a `ReplaceAroundStep` answer is that its slice is in normal form (`fnorm`, decidable; not proved for the Fitter);
+* `delete_total_valid`, `deleteRange_total_valid`, `insertInline_total_valid_partial` — with the totality theorems: the
+  operation does not raise inside `replace_step`, and its `Step.apply` ends in a valid document with the content kept or
+  in a `ReplaceError`-class refusal (`failed` / `valueError`), never in an internal error.
+
+WHAT IS MISSING for the first sentence of C11 on these classes (`delete_applies`): that the refusal branch is empty, i.e.
+`S.apply st doc = .ok _` for the emitted step.  `delete_total` / `insertInline_total` give `replaceStep … = .ok r` only.
+Success of `apply` needs the converse of `replace_valid` (Proofs/ReplaceValid.lean): every `close` of `replace_outer` /
+`replace_three_way` accepts — the two `joinable` tests hold because the emitted slice's start spine is the chain of the
+document's own nodes at `from` (`fitInit`) and its end spine the chain re-opened by `close` from the nodes at the close
+target (`reopen`: same types), and every joined node's content is accepted because `frontier[d].match` is the automaton
+state after the joined content (`Coh`, Proofs/FitCoherent.lean) and `find_close_level` / `content_after_fits` answered
+a filling for the rest of the document's node behind `to`.  `Coh` is proved invariant only under `unplacedWfRun`; the
+bridge "`Coh` at the end of `close` ⇒ `checkContent` of every joined level" is not proved.  The tie (op `fitEmit`) applies
+every emitted step of the model and of the code and compares the documents. -/
+
+/-- **what C11 says about the document an operation returns** for the request "replace `[f, t)` of a document with
+    tokens `d` by a slice with text `req`": the content tokens (text units and leaf nodes, with marks and attributes)
+    of the result `d'` are those before `f`, then inserted content `ins1` whose text is an in-order subsequence of
+    `req`, then the content after `t` (`g ++ b`), unmodified and in order, possibly with text-free inserted content
+    `ins2` (empty filler nodes) between its first part `g` (the rest of the textblock of `t`, which a replace-around
+    step moves) and the rest `b`.  For a replace step `g = ins2 = []`. -/
+def Kept (d d' : List Tok) (f t : Nat) (req : List Nat) : Prop :=
+  ∃ ins1 g ins2 b : List Tok,
+    (d.drop t).filter Tok.isContent = g ++ b ∧
+    d'.filter Tok.isContent = (d.take f).filter Tok.isContent ++ ins1 ++ g ++ ins2 ++ b ∧
+    textUnits ins2 = [] ∧ isSubseq (textUnits ins1) req = true
+
+/-- … in particular for the text alone: the text before `f`, a subsequence of the requested text, the text after `t` -/
+theorem Kept.text {d d' : List Tok} {f t : Nat} {req : List Nat} (h : Kept d d' f t req) :
+    ∃ mid, textUnits d' = textUnits (d.take f) ++ mid ++ textUnits (d.drop t) ∧ isSubseq mid req = true := by
+  obtain ⟨ins1, g, ins2, b, h1, h2, h3, h4⟩ := h
+  refine ⟨textUnits ins1, ?_, h4⟩
+  have e1 := congrArg textUnits h1
+  have e2 := congrArg textUnits h2
+  simp only [textUnits_filter, textUnits_append, h3, List.append_nil] at e1 e2
+  rw [e2, e1]
+  simp only [List.append_assoc]
+
+/-- … and for a deletion: exactly the text outside `[f, t)` -/
+theorem Kept.text_delete {d d' : List Tok} {f t : Nat} (h : Kept d d' f t []) :
+    textUnits d' = textUnits (d.take f) ++ textUnits (d.drop t) := by
+  obtain ⟨mid, e, hs⟩ := h.text
+  rw [isSubseq_nil _ hs, List.append_nil] at e
+  exact e
+
+/-- **a step that respects the request and applies keeps the content** (`respects_replace`,
+    `respects_replaceAround` in one statement) -/
+theorem kept_of_respects (S : Schema) (doc doc' : Node) (f t : Nat) (req : Slice) (st : Step)
+    (hwf : StepWF st = true) (hm : respects (ftoks doc.kids) f t req st = true)
+    (h : S.apply st doc = .ok doc') :
+    Kept (ftoks doc.kids) (ftoks doc'.kids) f t (textUnits (sliceToks' req)) := by
+  cases st with
+  | replace F T sl b =>
+    obtain ⟨hc, hs⟩ := respects_replace S doc doc' f t req F T sl b hm h
+    exact ⟨(sliceToks' sl).filter Tok.isContent, [], [], _, (List.nil_append _).symm,
+      by rw [hc]; simp, rfl, by rw [textUnits_filter]; exact hs⟩
+  | replaceAround F T G1 G2 sl ins b =>
+    simp only [StepWF, Bool.and_eq_true, decide_eq_true_eq] at hwf
+    obtain ⟨hc, ha, hn, hs⟩ := respects_replaceAround S doc doc' f t req F T G1 G2 sl ins b hwf.1 hwf.2 hm h
+    exact ⟨((sliceToks' sl).take ins).filter Tok.isContent, _, ((sliceToks' sl).drop ins).filter Tok.isContent, _,
+      ha, by rw [hc], by rw [textUnits_filter]; exact hn, by rw [textUnits_filter]; exact hs⟩
+  | _ => simp [respects] at hm
+
+/-- **the composition**: a step with a valid well-formed payload that respects the request turns a valid
+    document into a valid document that keeps the content around the range -/
+theorem op_valid_of (S : Schema) (doc doc' : Node) (f t : Nat) (req : Slice) (st : Step)
+    (hv : C01.Valid S doc) (hp : C01.PayloadValid S doc st) (hwf : StepWF st = true)
+    (hm : respects (ftoks doc.kids) f t req st = true) (h : S.apply st doc = .ok doc') :
+    C01.Valid S doc' ∧ Kept (ftoks doc.kids) (ftoks doc'.kids) f t (textUnits (sliceToks' req)) :=
+  ⟨C01.apply_valid S st doc doc' hv hp h, kept_of_respects S doc doc' f t req st hwf hm h⟩
+
+/-- the monitored conjunct of `fitter_respects` is a theorem for deletions: a replace-around answer inserts
+    nothing in front of the gap (`delete_around_is_move`) and its slice carries no text at all (`fit_text`) -/
+theorem delete_respects (S : Schema) (doc : Node) (f t : Nat) (hft : f ≤ t) (st : Step)
+    (h : replaceStep S doc f t Slice.empty = .ok (some st)) :
+    respects (ftoks doc.kids) f t Slice.empty st = true := by
+  refine fitter_respects S doc f t Slice.empty st hft (by decide) h ?_
+  intro F T G1 G2 sl' ins b hst
+  subst hst
+  obtain ⟨sl2, hs, hsub⟩ := fit_text S doc f t Slice.empty _ (by decide) h
+  simp only [Step.sliceOf, Option.some.injEq] at hs
+  subst hs
+  rw [sliceToks'_empty] at hsub
+  have hnil : textUnits (sliceToks' sl') = [] := by simpa [textUnits] using hsub
+  have := textUnits_sublist (List.drop_sublist ins (sliceToks' sl'))
+  rw [hnil] at this
+  simp [noText, List.sublist_nil.mp this]
+
+
+/-- the step `delete_range` records respects the request it was given, replace-around answers included -/
+theorem deleteRange_step_respects (S : Schema) (doc : Node) (f t : Nat) (hft : f ≤ t) (st : Step)
+    (h : deleteRangeStep S doc f t = .ok (some st)) : respects (ftoks doc.kids) f t Slice.empty st = true := by
+  unfold deleteRangeStep at h
+  split at h
+  · simp [throw, throwThe, MonadExceptOf.throw] at h
+  · rename_i a b htg
+    obtain ⟨h1, h2, _⟩ := deleteRange_extends_structurally S doc f t a b htg
+    exact deleteRange_respects S doc f t a b st hft htg (delete_respects S doc a b (by omega) st h)
+
+
+/-- **what the three C11 facts about an emitted step are called together**: its payload is valid (C01), it is
+    well-formed (`StepWF`), and a replace-around answer inserts no text behind the kept gap -/
+def EmitOK (S : Schema) (doc : Node) (st : Step) : Prop :=
+  C01.PayloadValid S doc st ∧ StepWF st = true ∧
+  ∀ F T G1 G2 sl' ins b, st = .replaceAround F T G1 G2 sl' ins b → noText ((sliceToks' sl').drop ins) = true
+
+/-- deletions emit such steps -/
+theorem delete_emitOK (S : Schema) (hdet : detB S = true) (hfill : S.fillersOKB = true)
+    (hleaf : PM.FromDom.leafOkB S = true) (doc : Node) (f t : Nat)
+    (hv : C01.Valid S doc) (hattrs : S.nodeAttrsOK doc = true) (hft : f ≤ t) (st : Step)
+    (h : replaceStep S doc f t Slice.empty = .ok (some st)) : EmitOK S doc st := by
+  refine ⟨delete_emits_payloadValid S hdet hleaf doc f t hv hattrs st h,
+    (delete_emits_wf S hdet hfill doc f t hv hattrs hft st h).1, ?_⟩
+  have hm := delete_respects S doc f t hft st h
+  intro F T G1 G2 sl' ins b hst
+  subst hst
+  simp only [respects, Bool.and_eq_true] at hm
+  exact hm.1.2
+
+/-- **one call of `replace`**: if the step `replace_step` emits for `(f, t, slice)` is `EmitOK` and applies, the
+    result is valid and keeps the content around `[f, t)` -/
+theorem replace_valid_of_emitOK (S : Schema) (doc doc' : Node) (f t : Nat) (sl : Slice) (hv : C01.Valid S doc)
+    (hft : f ≤ t) (hwf : sl.wf = true) (st : Step) (h : replaceStep S doc f t sl = .ok (some st))
+    (he : EmitOK S doc st) (ha : S.apply st doc = .ok doc') :
+    C01.Valid S doc' ∧ Kept (ftoks doc.kids) (ftoks doc'.kids) f t (textUnits (sliceToks' sl)) :=
+  op_valid_of S doc doc' f t sl st hv he.1 he.2.1 (fitter_respects S doc f t sl st hft hwf h he.2.2) ha
+
+/-- **`replace_range`**: the same for every request `replace_range(f, t, slice)` makes of the document — the
+    result is valid and keeps the content around the range `replace_range` *was given* -/
+theorem replaceRange_valid_of_emitOK (S : Schema) (doc doc' : Node) (f t : Nat) (sl : Slice)
+    (cs : List (Nat × Nat × Slice)) (hv : C01.Valid S doc) (hft : f ≤ t) (hwf : sl.wf = true)
+    (h : replaceRangeCalls S doc f t sl = some cs) (c : Nat × Nat × Slice) (hc : c ∈ cs) (st : Step)
+    (hst : replaceStep S doc c.1 c.2.1 c.2.2 = .ok (some st)) (he : EmitOK S doc st)
+    (ha : S.apply st doc = .ok doc') :
+    C01.Valid S doc' ∧ Kept (ftoks doc.kids) (ftoks doc'.kids) f t (textUnits (sliceToks' sl)) :=
+  op_valid_of S doc doc' f t sl st hv he.1 he.2.1
+    (replaceRange_respects S doc f t sl cs hft hwf h c hc st hst he.2.2) ha
+
+/-- **`replace_range_with`** likewise (for a replace-around answer after the target was moved to an insertion
+    point: provided the kept gap does not start before the requested position, as in `replaceRangeWith_respects`) -/
+theorem replaceRangeWith_valid_of_emitOK (S : Schema) (doc doc' : Node) (f t : Nat) (node : Node)
+    (cs : List (Nat × Nat × Slice)) (hv : C01.Valid S doc) (hft : f ≤ t)
+    (h : replaceRangeWithCalls S doc f t node = some cs) (c : Nat × Nat × Slice) (hc : c ∈ cs) (st : Step)
+    (hst : replaceStep S doc c.1 c.2.1 c.2.2 = .ok (some st)) (he : EmitOK S doc st)
+    (hgap : ∀ F T G1 G2 sl' ins b, st = .replaceAround F T G1 G2 sl' ins b → t ≤ G1)
+    (ha : S.apply st doc = .ok doc') :
+    C01.Valid S doc' ∧
+    Kept (ftoks doc.kids) (ftoks doc'.kids) f t (textUnits (sliceToks' ⟨[node], 0, 0⟩)) :=
+  op_valid_of S doc doc' f t ⟨[node], 0, 0⟩ st hv he.1 he.2.1
+    (replaceRangeWith_respects S doc f t node cs hft h c hc st hst he.2.2 hgap) ha
+
+/-- the in-step half of `fitEndInv`: either the request fits trivially (the step is `ReplaceStep(f, t, slice)`), or
+    the loop of `fit` ends in step -/
+theorem inStep_of_endInv (S : Schema) (doc : Node) (f t : Nat) (sl : Slice) (st : Step)
+    (h : replaceStep S doc f t sl = .ok (some st)) (hend : fitEndInv S doc f t sl ≠ some false) :
+    ∀ rf st0 st1, doc.resolve f = some rf → fitInit S rf sl = .ok st0 →
+      fitLoop S (fitFuel S sl) st0 = .ok st1 → st = .replace f t sl false ∨ st1.inStepB = true := by
+  intro rf' st0 st1 hf' h0 h1
+  unfold replaceStep at h
+  split at h
+  · simp [pure, Except.pure] at h
+  · rename_i hc
+    split at h
+    · rename_i rf rt hf ht
+      have e : rf = rf' := Option.some.inj (hf.symm.trans hf')
+      subst e
+      split at h
+      · simp [throw, throwThe, MonadExceptOf.throw] at h
+      · have := pure_ok h
+        simp only [Option.some.injEq] at this
+        exact .inl this.symm
+      · rename_i htr
+        have he := fitEndInv_eq S doc f t sl rf rt st0 st1 hc hf ht htr h0 h1
+        right
+        cases hb : st1.inStepB with
+        | true => rfl
+        | false => rw [hb] at he; exact absurd he hend
+    · simp [throw, throwThe, MonadExceptOf.throw] at h
+
+
+/-- **`delete_valid`** — `Transform.delete(f, t)` on a valid document: whenever the step `replace_step` emits for the
+    empty slice applies, the returned document is valid (`Node.check`), all text and leaf nodes before `f` and after `t`
+    are still present, in order and unmodified (`Kept`; a replace-around answer moves the rest of the textblock of `t`
+    behind `f` and may put text-free fillers behind it), and its text is exactly the text outside `[f, t)`: deleting
+    removes exactly the text inside and adds none.  No hypothesis about the step. -/
+theorem delete_valid (S : Schema) (hdet : detB S = true) (hfill : S.fillersOKB = true)
+    (hleaf : PM.FromDom.leafOkB S = true) (doc doc' : Node) (f t : Nat)
+    (hv : C01.Valid S doc) (hattrs : S.nodeAttrsOK doc = true) (hft : f ≤ t) (st : Step)
+    (h : replaceStep S doc f t Slice.empty = .ok (some st)) (ha : S.apply st doc = .ok doc') :
+    C01.Valid S doc' ∧ Kept (ftoks doc.kids) (ftoks doc'.kids) f t [] ∧
+    textUnits (ftoks doc'.kids) = textUnits ((ftoks doc.kids).take f) ++ textUnits ((ftoks doc.kids).drop t) := by
+  have hk := replace_valid_of_emitOK S doc doc' f t Slice.empty hv hft (by decide) st h
+    (delete_emitOK S hdet hfill hleaf doc f t hv hattrs hft st h) ha
+  rw [sliceToks'_empty] at hk
+  exact ⟨hk.1, hk.2, hk.2.text_delete⟩
+
+/-- the step `Transform.delete_range` records is `EmitOK` -/
+theorem deleteRange_emitOK (S : Schema) (hdet : detB S = true) (hfill : S.fillersOKB = true)
+    (hleaf : PM.FromDom.leafOkB S = true) (doc : Node) (f t : Nat)
+    (hv : C01.Valid S doc) (hattrs : S.nodeAttrsOK doc = true) (hft : f ≤ t) (st : Step)
+    (h : deleteRangeStep S doc f t = .ok (some st)) : EmitOK S doc st := by
+  unfold deleteRangeStep at h
+  split at h
+  · simp [throw, throwThe, MonadExceptOf.throw] at h
+  · rename_i a b htg
+    obtain ⟨h1, h2, _⟩ := deleteRange_extends_structurally S doc f t a b htg
+    exact delete_emitOK S hdet hfill hleaf doc a b hv hattrs (by omega) st h
+
+/-- **`deleteRange_valid`** — `Transform.delete_range(f, t)` as a whole (widening, then `delete`): the same three
+    conclusions *for the range `delete_range` was given* -/
+theorem deleteRange_valid (S : Schema) (hdet : detB S = true) (hfill : S.fillersOKB = true)
+    (hleaf : PM.FromDom.leafOkB S = true) (doc doc' : Node) (f t : Nat)
+    (hv : C01.Valid S doc) (hattrs : S.nodeAttrsOK doc = true) (hft : f ≤ t) (st : Step)
+    (h : deleteRangeStep S doc f t = .ok (some st)) (ha : S.apply st doc = .ok doc') :
+    C01.Valid S doc' ∧ Kept (ftoks doc.kids) (ftoks doc'.kids) f t [] ∧
+    textUnits (ftoks doc'.kids) = textUnits ((ftoks doc.kids).take f) ++ textUnits ((ftoks doc.kids).drop t) := by
+  have he := deleteRange_emitOK S hdet hfill hleaf doc f t hv hattrs hft st h
+  have hk := op_valid_of S doc doc' f t Slice.empty st hv he.1 he.2.1
+    (deleteRange_step_respects S doc f t hft st h) ha
+  rw [sliceToks'_empty] at hk
+  exact ⟨hk.1, hk.2, hk.2.text_delete⟩
+
+/-- **`delete_total_valid`** — totality and validity together: on a valid document whose top node is not a
+    textblock, for every range `f ≤ t` inside it, `delete(f, t)` does not raise inside `replace_step`; it records
+    nothing (`None`), or a step whose `apply` either ends in a valid document with exactly the text inside `[f, t)`
+    removed, or is refused with a `ReplaceError`-class failure — never an internal error (C01).  See the section
+    header for what an empty refusal branch (`delete_applies`) still needs. -/
+theorem delete_total_valid (S : Schema) (hdet : detB S = true) (hfill : S.fillersOKB = true)
+    (hleaf : PM.FromDom.leafOkB S = true) (doc : Node) (f t : Nat)
+    (hv : C01.Valid S doc) (hdoc : C01.IsElem doc) (hattrs : S.nodeAttrsOK doc = true)
+    (htop : S.isTextblockO (S.tyOf doc) = false) (hft : f ≤ t) (ht : t ≤ fsize doc.kids) :
+    replaceStep S doc f t Slice.empty = .ok none ∨
+    ∃ st, replaceStep S doc f t Slice.empty = .ok (some st) ∧
+      (S.apply st doc = .error .failed ∨ S.apply st doc = .error .valueError ∨
+       ∃ doc', S.apply st doc = .ok doc' ∧ C01.Valid S doc' ∧ Kept (ftoks doc.kids) (ftoks doc'.kids) f t [] ∧
+         textUnits (ftoks doc'.kids) = textUnits ((ftoks doc.kids).take f) ++ textUnits ((ftoks doc.kids).drop t)) := by
+  obtain ⟨r, hr⟩ := delete_total S hdet hfill doc f t hv hattrs htop hft ht
+  cases r with
+  | none => exact .inl hr
+  | some st =>
+    refine .inr ⟨st, hr, ?_⟩
+    have he := delete_emitOK S hdet hfill hleaf doc f t hv hattrs hft st hr
+    rcases C01.apply_valid_or_rejected S st doc hv hdoc he.1 he.2.1 with h1 | h1 | ⟨doc', h1, _⟩
+    · exact .inl h1
+    · exact .inr (.inl h1)
+    · exact .inr (.inr ⟨doc', h1, delete_valid S hdet hfill hleaf doc doc' f t hv hattrs hft st hr h1⟩)
+
+/-- **`deleteRange_total_valid`** — the same for `Transform.delete_range(f, t)` -/
+theorem deleteRange_total_valid (S : Schema) (hdet : detB S = true) (hfill : S.fillersOKB = true)
+    (hleaf : PM.FromDom.leafOkB S = true) (doc : Node) (f t : Nat)
+    (hv : C01.Valid S doc) (hdoc : C01.IsElem doc) (hattrs : S.nodeAttrsOK doc = true)
+    (htop : S.isTextblockO (S.tyOf doc) = false) (hft : f ≤ t) (ht : t ≤ fsize doc.kids) :
+    deleteRangeStep S doc f t = .ok none ∨
+    ∃ st, deleteRangeStep S doc f t = .ok (some st) ∧
+      (S.apply st doc = .error .failed ∨ S.apply st doc = .error .valueError ∨
+       ∃ doc', S.apply st doc = .ok doc' ∧ C01.Valid S doc' ∧ Kept (ftoks doc.kids) (ftoks doc'.kids) f t [] ∧
+         textUnits (ftoks doc'.kids) = textUnits ((ftoks doc.kids).take f) ++ textUnits ((ftoks doc.kids).drop t)) := by
+  obtain ⟨r, hr⟩ := deleteRange_total S hdet hfill doc f t hv hattrs htop hft ht
+  cases r with
+  | none => exact .inl hr
+  | some st =>
+    refine .inr ⟨st, hr, ?_⟩
+    have he := deleteRange_emitOK S hdet hfill hleaf doc f t hv hattrs hft st hr
+    rcases C01.apply_valid_or_rejected S st doc hv hdoc he.1 he.2.1 with h1 | h1 | ⟨doc', h1, _⟩
+    · exact .inl h1
+    · exact .inr (.inl h1)
+    · exact .inr (.inr ⟨doc', h1, deleteRange_valid S hdet hfill hleaf doc doc' f t hv hattrs hft st hr h1⟩)
+
+/-- **`replaceRange_valid_delete`** — `replace_range(f, t, slice)` with a slice of size 0 goes through `delete_range`:
+    whatever its one call of `replace` records, if it applies the document is valid and exactly the text inside
+    `[f, t)` is gone -/
+theorem replaceRange_valid_delete (S : Schema) (hdet : detB S = true) (hfill : S.fillersOKB = true)
+    (hleaf : PM.FromDom.leafOkB S = true) (doc doc' : Node) (f t : Nat) (sl : Slice) (hsz : (sl.size == 0) = true)
+    (cs : List (Nat × Nat × Slice)) (hv : C01.Valid S doc) (hattrs : S.nodeAttrsOK doc = true) (hft : f ≤ t)
+    (h : replaceRangeCalls S doc f t sl = some cs) (c : Nat × Nat × Slice) (hc : c ∈ cs) (st : Step)
+    (hst : replaceStep S doc c.1 c.2.1 c.2.2 = .ok (some st)) (ha : S.apply st doc = .ok doc') :
+    C01.Valid S doc' ∧ Kept (ftoks doc.kids) (ftoks doc'.kids) f t [] ∧
+    textUnits (ftoks doc'.kids) = textUnits ((ftoks doc.kids).take f) ++ textUnits ((ftoks doc.kids).drop t) := by
+  have hds : deleteRangeStep S doc f t = .ok (some st) := by
+    unfold replaceRangeCalls replaceRangePlan at h
+    rw [if_pos hsz] at h
+    unfold deleteRangeStep
+    split at h
+    · simp at h
+    · rename_i a b htg
+      simp only [Option.map_some, RRPlan.toCalls, Option.some.injEq] at h
+      subst h
+      simp only [List.mem_singleton] at hc
+      subst hc
+      rw [htg]
+      exact hst
+  exact deleteRange_valid S hdet hfill hleaf doc doc' f t hv hattrs hft st hds ha
+
+/-- the residual hypothesis of the `_partial` theorems below: *if* the emitted step is a replace-around step, the
+    slice with the gap content in place is a valid payload (vacuous for a `ReplaceStep`; proved for deletions:
+    `delete_emits_payloadValid`) -/
+def AroundPayload (S : Schema) (doc : Node) (st : Step) : Prop :=
+  ∀ F T G1 G2 sl' ins b, st = .replaceAround F T G1 G2 sl' ins b → C01.PayloadValid S doc st
+
+/-- payload validity of the emitted step from the validity of its slice, up to `AroundPayload` -/
+theorem fit_payloadValid_of (S : Schema) (doc : Node) (st : Step) (hpa : AroundPayload S doc st)
+    (hp : ∃ sl', st.sliceOf = some sl' ∧ openValid S sl'.openStart sl'.openEnd sl'.content = true) :
+    C01.PayloadValid S doc st := by
+  obtain ⟨sl', hs, hval⟩ := hp
+  cases st with
+  | replace F T sl b =>
+    simp only [Step.sliceOf, Option.some.injEq] at hs
+    subst hs
+    exact hval
+  | replaceAround F T G1 G2 sl ins b => exact hpa _ _ _ _ _ _ _ rfl
+  | addMark _ _ _ => simp [Step.sliceOf] at hs
+  | removeMark _ _ _ => simp [Step.sliceOf] at hs
+  | attr _ _ _ => simp [Step.sliceOf] at hs
+  | docAttr _ _ => simp [Step.sliceOf] at hs
+  | addNodeMark _ _ => simp [Step.sliceOf] at hs
+  | removeNodeMark _ _ => simp [Step.sliceOf] at hs
+
+/-- every step emitted for a **closed slice of valid leaf / text nodes** is `EmitOK` (a replace-around answer: up to
+    `AroundPayload`; its `StepWF` and "no text behind the gap" are proved: `insertInline_emits_wf`,
+    `replaceStep_inline_tail`, Proofs/FitTail.lean) -/
+theorem insertInline_emitOK_partial (S : Schema) (hdet : detB S = true) (hfill : S.fillersOKB = true)
+    (hwrap : S.wrapOKB = true) (hlab : S.labelsOKB = true) (hleaf : PM.FromDom.leafOkB S = true)
+    (hts : textStableC S = true) (hcl : S.closableB = true) (doc : Node) (f t : Nat) (sl : Slice)
+    (hsl : sl.inlineLeaves S = true) (hslv : sl.closedValid S = true) (hv : C01.Valid S doc)
+    (hattrs : S.nodeAttrsOK doc = true) (hft : f ≤ t) (st : Step) (h : replaceStep S doc f t sl = .ok (some st))
+    (hpa : AroundPayload S doc st) : EmitOK S doc st := by
+  have hwf := (insertInline_emits_wf S hdet hfill hwrap doc f t sl hsl hv hattrs hft st h).1
+  refine ⟨fit_payloadValid_of S doc st hpa
+    (insertInline_emits_valid_payload S hdet hfill hwrap hlab hleaf hts hcl doc f t sl hsl hslv hv hattrs st h),
+    hwf, ?_⟩
+  intro F T G1 G2 sl' ins b hst
+  subst hst
+  exact replaceStep_inline_tail S (detS_of_detB S hdet) (fillersOK_of_B S hfill) (wrapOK_of_B S hwrap) doc f t sl hsl hv
+    F T G1 G2 sl' ins b h
+
+/-- every step emitted for an **`openValid` well-formed slice** is `EmitOK` when the loop of `fit` ends with its
+    invariants (`fitEndInv ≠ some false`: in step and `validB`; `none` = the Fitter is not reached) — a replace-around
+    answer up to `AroundPayload`; `StepWF` (`fit_emits_wf_of_inStep`) and "no text behind the gap"
+    (`replaceStep_tail_of_inStep`) follow from the in-step half of the invariant -/
+theorem fit_emitOK_of_inv_partial (S : Schema) (hdet : detB S = true) (hfill : S.fillersOKB = true)
+    (hleaf : PM.FromDom.leafOkB S = true) (hts : textStableC S = true) (hcl : S.closableB = true)
+    (doc : Node) (f t : Nat) (sl : Slice) (hwf : sl.wf = true)
+    (hslv : openValid S sl.openStart sl.openEnd sl.content = true)
+    (hattrs : S.nodeAttrsOK doc = true) (st : Step) (h : replaceStep S doc f t sl = .ok (some st))
+    (hend : fitEndInv S doc f t sl ≠ some false) (hpa : AroundPayload S doc st) : EmitOK S doc st := by
+  have hpl := fit_emits_valid_payload_of_inv S hdet hfill hleaf hts hcl doc f t sl hslv hattrs st h hend
+  have hi := inStep_of_endInv S doc f t sl st h hend
+  by_cases htriv : st = .replace f t sl false
+  · subst htriv
+    exact ⟨hslv, hwf, by intro F T G1 G2 sl' ins b hst; cases hst⟩
+  · have hin : ∀ rf st0 st1, doc.resolve f = some rf → fitInit S rf sl = .ok st0 →
+        fitLoop S (fitFuel S sl) st0 = .ok st1 → st1.inStepB = true := by
+      intro rf st0 st1 h1 h2 h3
+      rcases hi rf st0 st1 h1 h2 h3 with e | e
+      · exact absurd e htriv
+      · exact e
+    have hswf := replaceStep_wf_of_inStep S (detS_of_detB S hdet) (fillersOK_of_B S hfill) doc f t sl hattrs hwf st h hin
+    refine ⟨fit_payloadValid_of S doc st hpa hpl, hswf, ?_⟩
+    intro F T G1 G2 sl' ins b hst
+    subst hst
+    exact replaceStep_tail_of_inStep S doc f t sl F T G1 G2 sl' ins b h hin
+
+/-- a closed slice is well-formed -/
+theorem wf_of_inlineLeaves (S : Schema) (sl : Slice) (hsl : sl.inlineLeaves S = true) : sl.wf = true := by
+  simp only [Slice.inlineLeaves, Bool.and_eq_true, beq_iff_eq] at hsl
+  simp [Slice.wf, hsl.1.1, hsl.1.2]
+
+/-- **`insertInline_valid_partial`** — `insert` / `replace_with` / typing: `replace(f, t, slice)` with a closed slice of
+    valid leaf / text nodes on a valid document.  Whenever the emitted step applies, the returned document is valid,
+    all text and leaf nodes before `f` and after `t` are still present, in order and unmodified, and the text between
+    them is an in-order subsequence of the slice's text (`Kept`).  **Unconditional when the answer is a
+    `ReplaceStep`**; for a `ReplaceAroundStep` answer one hypothesis about the step is left (`AroundPayload`).
+    FULL STATEMENT (`insertInline_valid`): the same without `hpa`.  Missing: `Slice.insert_at(insert, gap)` keeps
+    `openValid` at `insert > 0` — Proofs/InsertAtValid.lean proves it for closed slices (`insertAt_closed_openValid`,
+    under `FromDom.TextStable`, slice and gap in normal form); the emitted slice is open at the start
+    (`open_start = depth(from)`), and its normal form (`fnorm`) is not proved for the Fitter (the same residual as in
+    C04's `DeleteResidual`). -/
+theorem insertInline_valid_partial (S : Schema) (hdet : detB S = true) (hfill : S.fillersOKB = true)
+    (hwrap : S.wrapOKB = true) (hlab : S.labelsOKB = true) (hleaf : PM.FromDom.leafOkB S = true)
+    (hts : textStableC S = true) (hcl : S.closableB = true) (doc doc' : Node) (f t : Nat) (sl : Slice)
+    (hsl : sl.inlineLeaves S = true) (hslv : sl.closedValid S = true) (hv : C01.Valid S doc)
+    (hattrs : S.nodeAttrsOK doc = true) (hft : f ≤ t) (st : Step) (h : replaceStep S doc f t sl = .ok (some st))
+    (hpa : AroundPayload S doc st) (ha : S.apply st doc = .ok doc') :
+    C01.Valid S doc' ∧ Kept (ftoks doc.kids) (ftoks doc'.kids) f t (textUnits (sliceToks' sl)) :=
+  replace_valid_of_emitOK S doc doc' f t sl hv hft (wf_of_inlineLeaves S sl hsl) st h
+    (insertInline_emitOK_partial S hdet hfill hwrap hlab hleaf hts hcl doc f t sl hsl hslv hv hattrs hft st h hpa) ha
+
+/-- **`insertInline_total_valid_partial`** — with `insertInline_total`: the operation does not raise inside
+    `replace_step`; it records nothing, or a step whose `apply` (given `AroundPayload`, vacuous for a `ReplaceStep`)
+    ends in a valid document with the content kept or in a `ReplaceError`-class refusal, never in an internal error -/
+theorem insertInline_total_valid_partial (S : Schema) (hdet : detB S = true) (hfill : S.fillersOKB = true)
+    (hwrap : S.wrapOKB = true) (hlab : S.labelsOKB = true) (hleaf : PM.FromDom.leafOkB S = true)
+    (hts : textStableC S = true) (hcl : S.closableB = true) (doc : Node) (f t : Nat) (sl : Slice)
+    (hsl : sl.inlineLeaves S = true) (hslv : sl.closedValid S = true) (hv : C01.Valid S doc) (hdoc : C01.IsElem doc)
+    (hattrs : S.nodeAttrsOK doc = true) (htop : S.isTextblockO (S.tyOf doc) = false) (hft : f ≤ t)
+    (ht : t ≤ fsize doc.kids) :
+    replaceStep S doc f t sl = .ok none ∨
+    ∃ st, replaceStep S doc f t sl = .ok (some st) ∧
+      (AroundPayload S doc st →
+       S.apply st doc = .error .failed ∨ S.apply st doc = .error .valueError ∨
+       ∃ doc', S.apply st doc = .ok doc' ∧ C01.Valid S doc' ∧
+         Kept (ftoks doc.kids) (ftoks doc'.kids) f t (textUnits (sliceToks' sl))) := by
+  obtain ⟨r, hr⟩ := insertInline_total S hdet hfill hwrap doc f t sl hsl hv hattrs htop hft ht
+  cases r with
+  | none => exact .inl hr
+  | some st =>
+    refine .inr ⟨st, hr, fun hpa => ?_⟩
+    have he := insertInline_emitOK_partial S hdet hfill hwrap hlab hleaf hts hcl doc f t sl hsl hslv hv hattrs hft st hr hpa
+    rcases C01.apply_valid_or_rejected S st doc hv hdoc he.1 he.2.1 with h1 | h1 | ⟨doc', h1, _⟩
+    · exact .inl h1
+    · exact .inr (.inl h1)
+    · exact .inr (.inr ⟨doc', h1,
+        replace_valid_of_emitOK S doc doc' f t sl hv hft (wf_of_inlineLeaves S sl hsl) st hr he h1⟩)
+
+/-- **`replace_valid_of_inv_partial`** — any `replace(f, t, slice)` with a well-formed slice that is a valid payload
+    (`openValid`: every slice cut from a valid document, `C01.slice_payload_valid`), under the decidable run hypothesis
+    `fitEndInv S doc f t slice ≠ some false` (the loop of `fit` ends in step and with `validB`; evaluated by the driver
+    on every generated request, never false so far): whenever the emitted step applies, the returned document is valid
+    and keeps the content around `[f, t)` with text of the slice, in order, between.  Unconditional for a
+    `ReplaceStep` answer; `AroundPayload` left for a `ReplaceAroundStep` answer (see `insertInline_valid_partial`). -/
+theorem replace_valid_of_inv_partial (S : Schema) (hdet : detB S = true) (hfill : S.fillersOKB = true)
+    (hleaf : PM.FromDom.leafOkB S = true) (hts : textStableC S = true) (hcl : S.closableB = true)
+    (doc doc' : Node) (f t : Nat) (sl : Slice) (hwf : sl.wf = true)
+    (hslv : openValid S sl.openStart sl.openEnd sl.content = true) (hv : C01.Valid S doc)
+    (hattrs : S.nodeAttrsOK doc = true) (hft : f ≤ t) (st : Step) (h : replaceStep S doc f t sl = .ok (some st))
+    (hend : fitEndInv S doc f t sl ≠ some false) (hpa : AroundPayload S doc st) (ha : S.apply st doc = .ok doc') :
+    C01.Valid S doc' ∧ Kept (ftoks doc.kids) (ftoks doc'.kids) f t (textUnits (sliceToks' sl)) :=
+  replace_valid_of_emitOK S doc doc' f t sl hv hft hwf st h
+    (fit_emitOK_of_inv_partial S hdet hfill hleaf hts hcl doc f t sl hwf hslv hattrs st h hend hpa) ha
+
+/-- **`replaceRange_valid_inline_partial`** — `replace_range(f, t, slice)`: for every request `c` of its plan whose
+    slice is a closed slice of valid leaf / text nodes (on the direct and the fallback path the slice itself), whatever
+    step is emitted for it, if it applies the document is valid and keeps the content around the range `replace_range`
+    was given -/
+theorem replaceRange_valid_inline_partial (S : Schema) (hdet : detB S = true) (hfill : S.fillersOKB = true)
+    (hwrap : S.wrapOKB = true) (hlab : S.labelsOKB = true) (hleaf : PM.FromDom.leafOkB S = true)
+    (hts : textStableC S = true) (hcl : S.closableB = true) (doc doc' : Node) (f t : Nat) (sl : Slice)
+    (cs : List (Nat × Nat × Slice)) (hv : C01.Valid S doc) (hattrs : S.nodeAttrsOK doc = true) (hft : f ≤ t)
+    (hwf : sl.wf = true) (h : replaceRangeCalls S doc f t sl = some cs) (c : Nat × Nat × Slice) (hc : c ∈ cs)
+    (hsl : c.2.2.inlineLeaves S = true) (hslv : c.2.2.closedValid S = true) (st : Step)
+    (hst : replaceStep S doc c.1 c.2.1 c.2.2 = .ok (some st)) (hpa : AroundPayload S doc st)
+    (ha : S.apply st doc = .ok doc') :
+    C01.Valid S doc' ∧ Kept (ftoks doc.kids) (ftoks doc'.kids) f t (textUnits (sliceToks' sl)) := by
+  obtain ⟨h1, h2, _⟩ := replaceRange_extends_structurally S doc f t sl cs h c hc
+  exact replaceRange_valid_of_emitOK S doc doc' f t sl cs hv hft hwf h c hc st hst
+    (insertInline_emitOK_partial S hdet hfill hwrap hlab hleaf hts hcl doc c.1 c.2.1 c.2.2 hsl hslv hv hattrs (by omega)
+      st hst hpa) ha
+
+/-- **`replaceRange_valid_of_inv_partial`** — the same for any request of the plan whose slice is a well-formed valid
+    payload, under `fitEndInv ≠ some false` for that request -/
+theorem replaceRange_valid_of_inv_partial (S : Schema) (hdet : detB S = true) (hfill : S.fillersOKB = true)
+    (hleaf : PM.FromDom.leafOkB S = true) (hts : textStableC S = true) (hcl : S.closableB = true)
+    (doc doc' : Node) (f t : Nat) (sl : Slice) (cs : List (Nat × Nat × Slice)) (hv : C01.Valid S doc)
+    (hattrs : S.nodeAttrsOK doc = true) (hft : f ≤ t) (hwf : sl.wf = true)
+    (h : replaceRangeCalls S doc f t sl = some cs) (c : Nat × Nat × Slice) (hc : c ∈ cs)
+    (hcwf : c.2.2.wf = true) (hslv : openValid S c.2.2.openStart c.2.2.openEnd c.2.2.content = true) (st : Step)
+    (hst : replaceStep S doc c.1 c.2.1 c.2.2 = .ok (some st))
+    (hend : fitEndInv S doc c.1 c.2.1 c.2.2 ≠ some false) (hpa : AroundPayload S doc st)
+    (ha : S.apply st doc = .ok doc') :
+    C01.Valid S doc' ∧ Kept (ftoks doc.kids) (ftoks doc'.kids) f t (textUnits (sliceToks' sl)) :=
+  replaceRange_valid_of_emitOK S doc doc' f t sl cs hv hft hwf h c hc st hst
+    (fit_emitOK_of_inv_partial S hdet hfill hleaf hts hcl doc c.1 c.2.1 c.2.2 hcwf hslv hattrs st hst hend hpa) ha
+
+/-- **`replaceRangeWith_valid_of_inv_partial`** — `replace_range_with(f, t, node)` (`hgap` as in
+    `replaceRangeWith_respects`: only needed for a replace-around answer after the target was moved to an insertion
+    point) -/
+theorem replaceRangeWith_valid_of_inv_partial (S : Schema) (hdet : detB S = true) (hfill : S.fillersOKB = true)
+    (hleaf : PM.FromDom.leafOkB S = true) (hts : textStableC S = true) (hcl : S.closableB = true)
+    (doc doc' : Node) (f t : Nat) (node : Node) (cs : List (Nat × Nat × Slice)) (hv : C01.Valid S doc)
+    (hattrs : S.nodeAttrsOK doc = true) (hft : f ≤ t)
+    (h : replaceRangeWithCalls S doc f t node = some cs) (c : Nat × Nat × Slice) (hc : c ∈ cs)
+    (hcwf : c.2.2.wf = true) (hslv : openValid S c.2.2.openStart c.2.2.openEnd c.2.2.content = true) (st : Step)
+    (hst : replaceStep S doc c.1 c.2.1 c.2.2 = .ok (some st))
+    (hend : fitEndInv S doc c.1 c.2.1 c.2.2 ≠ some false) (hpa : AroundPayload S doc st)
+    (hgap : ∀ F T G1 G2 sl' ins b, st = .replaceAround F T G1 G2 sl' ins b → t ≤ G1)
+    (ha : S.apply st doc = .ok doc') :
+    C01.Valid S doc' ∧ Kept (ftoks doc.kids) (ftoks doc'.kids) f t (textUnits (sliceToks' ⟨[node], 0, 0⟩)) :=
+  replaceRangeWith_valid_of_emitOK S doc doc' f t node cs hv hft h c hc st hst
+    (fit_emitOK_of_inv_partial S hdet hfill hleaf hts hcl doc c.1 c.2.1 c.2.2 hcwf hslv hattrs st hst hend hpa) hgap ha
+
+/-- **`replaceRangeWith_valid_inline_partial`** — `replace_range_with(f, t, node)` for an inline leaf / text node (the
+    target is not moved: `replace_range_with` is `replace_range(f, t, <node>)`) -/
+theorem replaceRangeWith_valid_inline_partial (S : Schema) (hdet : detB S = true) (hfill : S.fillersOKB = true)
+    (hwrap : S.wrapOKB = true) (hlab : S.labelsOKB = true) (hleaf : PM.FromDom.leafOkB S = true)
+    (hts : textStableC S = true) (hcl : S.closableB = true) (doc doc' : Node) (f t : Nat) (node : Node)
+    (hinl : (S.nodeType (S.tyOf node)).isInline = true)
+    (cs : List (Nat × Nat × Slice)) (hv : C01.Valid S doc) (hattrs : S.nodeAttrsOK doc = true) (hft : f ≤ t)
+    (h : replaceRangeWithCalls S doc f t node = some cs) (c : Nat × Nat × Slice) (hc : c ∈ cs)
+    (hsl : c.2.2.inlineLeaves S = true) (hslv : c.2.2.closedValid S = true) (st : Step)
+    (hst : replaceStep S doc c.1 c.2.1 c.2.2 = .ok (some st)) (hpa : AroundPayload S doc st)
+    (ha : S.apply st doc = .ok doc') :
+    C01.Valid S doc' ∧ Kept (ftoks doc.kids) (ftoks doc'.kids) f t (textUnits (sliceToks' ⟨[node], 0, 0⟩)) := by
+  have hcs : replaceRangeCalls S doc f t ⟨[node], 0, 0⟩ = some cs := by
+    unfold replaceRangeWithCalls replaceRangeWithPlan replaceRangeWithTarget at h
+    simp only [hinl, Bool.not_true, Bool.false_and, Bool.false_eq_true, if_false] at h
+    exact h
+  exact replaceRange_valid_inline_partial S hdet hfill hwrap hlab hleaf hts hcl doc doc' f t ⟨[node], 0, 0⟩ cs hv hattrs
+    hft (by simp [Slice.wf]) hcs c hc hsl hslv st hst hpa ha
+
+/-- **`aroundPayload_of_norm`** — the residual `AroundPayload` reduced to normal form: on a valid document in normal form,
+    for a schema with `FromDom.textStableB` (a text child does not change what the content automaton accepts next), a
+    well-formed replace-around answer whose slice is a valid payload **and in normal form** (`fnorm`: no empty text
+    nodes, no adjacent text nodes with equal marks) has a valid payload with the gap content in place —
+    `Slice.insert_at(insert, gap)` keeps `openValid` at every position (`insertAt_openValid`, Proofs/InsertAtValid.lean:
+    a receiving node that is complete in the slice is checked by `can_replace`, one on an open side is validated by
+    `replace` when the slice is placed), and the gap `[to, to.end())` is a closed slice of valid nodes in normal form -/
+theorem aroundPayload_of_norm (S : Schema) (hst : PM.FromDom.textStableB S = true) (doc : Node) (f t : Nat)
+    (req : Slice) (hv : C01.Valid S doc) (hn : fnorm doc.kids = true) (st : Step)
+    (h : replaceStep S doc f t req = .ok (some st)) (hwf : StepWF st = true)
+    (hp : ∃ sl', st.sliceOf = some sl' ∧ openValid S sl'.openStart sl'.openEnd sl'.content = true)
+    (hsn : ∀ sl', st.sliceOf = some sl' → fnorm sl'.content = true) : AroundPayload S doc st := by
+  intro F T G1 G2 sl ins b hst'
+  subst hst'
+  obtain ⟨sl', hs, hval⟩ := hp
+  simp only [Step.sliceOf, Option.some.injEq] at hs
+  subst hs
+  simp only [StepWF, Bool.and_eq_true, decide_eq_true_eq] at hwf
+  intro gap res hgap hres
+  have hg := fit_around_gap_valid S doc f t req hv F T G1 G2 sl ins b h gap hgap
+  have hgn := (sliceKids_norm doc.kids G1 G2 gap hn hgap).1
+  exact insertAt_openValid S (PM.FromDom.textStable_of_B S hst) sl res ins gap.content hg hgn (hsn sl rfl) hwf.2 hval hres
+
+/-- **`insertInline_valid_of_norm`** — `insertInline_valid_partial` with the residual reduced to the normal form of the
+    emitted slice (a decidable property of the recorded step; the document in normal form, the schema
+    `textStableB`): no payload hypothesis left for either step kind -/
+theorem insertInline_valid_of_norm (S : Schema) (hdet : detB S = true) (hfill : S.fillersOKB = true)
+    (hwrap : S.wrapOKB = true) (hlab : S.labelsOKB = true) (hleaf : PM.FromDom.leafOkB S = true)
+    (hts : textStableC S = true) (hcl : S.closableB = true) (hst : PM.FromDom.textStableB S = true)
+    (doc doc' : Node) (f t : Nat) (sl : Slice)
+    (hsl : sl.inlineLeaves S = true) (hslv : sl.closedValid S = true) (hv : C01.Valid S doc)
+    (hn : fnorm doc.kids = true) (hattrs : S.nodeAttrsOK doc = true) (hft : f ≤ t) (st : Step)
+    (h : replaceStep S doc f t sl = .ok (some st))
+    (hsn : ∀ F T G1 G2 sl' ins b, st = .replaceAround F T G1 G2 sl' ins b → fnorm sl'.content = true)
+    (ha : S.apply st doc = .ok doc') :
+    C01.Valid S doc' ∧ Kept (ftoks doc.kids) (ftoks doc'.kids) f t (textUnits (sliceToks' sl)) := by
+  refine insertInline_valid_partial S hdet hfill hwrap hlab hleaf hts hcl doc doc' f t sl hsl hslv hv hattrs hft st h ?_ ha
+  intro F T G1 G2 sl' ins b hst'
+  refine aroundPayload_of_norm S hst doc f t sl hv hn st h
+    (insertInline_emits_wf S hdet hfill hwrap doc f t sl hsl hv hattrs hft st h).1
+    (insertInline_emits_valid_payload S hdet hfill hwrap hlab hleaf hts hcl doc f t sl hsl hslv hv hattrs st h) ?_
+    F T G1 G2 sl' ins b hst'
+  intro sl2 hs2
+  subst hst'
+  simp only [Step.sliceOf, Option.some.injEq] at hs2
+  subst hs2
+  exact hsn _ _ _ _ _ _ _ rfl
+
+/-- **`replace_valid_of_inv_of_norm`** — `replace_valid_of_inv_partial` likewise: any well-formed `openValid` slice under
+    `fitEndInv ≠ some false`, the residual for a replace-around answer reduced to the normal form of its slice -/
+theorem replace_valid_of_inv_of_norm (S : Schema) (hdet : detB S = true) (hfill : S.fillersOKB = true)
+    (hleaf : PM.FromDom.leafOkB S = true) (hts : textStableC S = true) (hcl : S.closableB = true)
+    (hst : PM.FromDom.textStableB S = true)
+    (doc doc' : Node) (f t : Nat) (sl : Slice) (hwf : sl.wf = true)
+    (hslv : openValid S sl.openStart sl.openEnd sl.content = true) (hv : C01.Valid S doc)
+    (hn : fnorm doc.kids = true) (hattrs : S.nodeAttrsOK doc = true) (hft : f ≤ t) (st : Step)
+    (h : replaceStep S doc f t sl = .ok (some st))
+    (hend : fitEndInv S doc f t sl ≠ some false)
+    (hsn : ∀ F T G1 G2 sl' ins b, st = .replaceAround F T G1 G2 sl' ins b → fnorm sl'.content = true)
+    (ha : S.apply st doc = .ok doc') :
+    C01.Valid S doc' ∧ Kept (ftoks doc.kids) (ftoks doc'.kids) f t (textUnits (sliceToks' sl)) := by
+  refine replace_valid_of_inv_partial S hdet hfill hleaf hts hcl doc doc' f t sl hwf hslv hv hattrs hft st h hend ?_ ha
+  intro F T G1 G2 sl' ins b hst'
+  have hswf : StepWF st = true := by
+    -- `StepWF` does not depend on the payload residual: derive it with the in-step half
+    have hi := inStep_of_endInv S doc f t sl st h hend
+    refine replaceStep_wf_of_inStep S (detS_of_detB S hdet) (fillersOK_of_B S hfill) doc f t sl hattrs hwf st h ?_
+    intro rf st0 st1 h1 h2 h3
+    rcases hi rf st0 st1 h1 h2 h3 with e | e
+    · rw [e] at hst'; cases hst'
+    · exact e
+  refine aroundPayload_of_norm S hst doc f t sl hv hn st h hswf
+    (fit_emits_valid_payload_of_inv S hdet hfill hleaf hts hcl doc f t sl hslv hattrs st h hend) ?_
+    F T G1 G2 sl' ins b hst'
+  intro sl2 hs2
+  subst hst'
+  simp only [Step.sliceOf, Option.some.injEq] at hs2
+  subst hs2
+  exact hsn _ _ _ _ _ _ _ rfl
 
 end PM.C11
